@@ -21,6 +21,14 @@ CHECKS = {
    "seeded search over histories of independent STARLite clients (own seeded entropy, no communication) over a family of confusable (measurement, epoch, threshold) triples; history tables triple -> (randomness, tag, key) must be a function and injective; share points pairwise distinct; complete groups recover (C01 oracle armed); key after recovery equals the clients' key. The confusable family is input generation and is labelled as such.",
    "ignores chance collisions of 128/256-bit honest values",
    "deterministic simulation (independent parties with controlled entropy); function/injection tables over the recorded history"),
+ "C05": ("fault_enumeration", "DESIGN.md §4 C05",
+   "several adss sharings (also through the star wrapper) meet at one combiner under dup/reorder; per attempt one field fault is applied from the grid position x {threshold, S.len, S.x, S.y, C.len, C, D.len, D, J} x byte offset x {bit flip, 00, ff, +1, swap with the same field of another share}; thorough sweeps all 9 fields x 5 kinds on the first share of every collection. Oracle: Err or exactly the message of the first share's sharing; a first share that is no genuine share of that sharing (threshold/C/D/J and polynomial membership judged with big integers) must give Err when message+coins carry >= 128 bits.",
+   "a 64-byte MAC is not forged by one field fault; 'always rejected' is not demanded when |M|+|R| < 16 bytes because a wrong key then decrypts to the right (M,R) by chance with probability 2^-8(|M|+|R|)",
+   "deterministic simulation with fault injection (field-targeted corruption, cross-delivery between sharings, dup, reorder); provenance oracle + big-integer polynomial membership"),
+ "C06": ("exploration", "DESIGN.md §4 C06",
+   "seeded search over dealings whose supplied random source is a recorded scripted stream (adversarial prefixes: zero limbs, p, p+-1, all-ones, repeats; rejected >= p draws) and whose shares (Evaluator::next and ::gen) cross the wire under drop/dup/reorder/truncate to a combiner; polynomials are inferred by big-integer interpolation, coefficients must be exactly the multiset of elements the stream yielded, every share is re-evaluated by big-integer Horner, x != 0, recovery from drawn selections equals big-integer Lagrange and the secret; insufficient / unequal-length collections and out-of-range secrets are refused.",
+   "trusts Fp::random's word-to-element mapping and to_repr (used to read the stream); most of the deciding power here is the independent big-integer model - stated plainly in DESIGN.md",
+   "deterministic simulation with scripted entropy streams and transport faults; independent big-integer Shamir model as oracle"),
  "C08": ("fault_enumeration", "DESIGN.md §4 C08",
    "every honest report / adss share / sharks share that crosses the simulated wire must decode to the sender's value and follow the documented layout as read by an independent parser; around each honest encoding the transport's fault set is enumerated (every prefix, every boundary value in each length/threshold field, 4 byte faults per offset, out-of-range field elements per slot, extensions, splices, garbage) and the real decoders must agree with the parser on accept/reject and on the canonical re-encoding. Enumeration is complete per honest message for the listed fault kinds; the honest messages themselves are sampled.",
    "trusts the ~150-line independent parser (models/layout.rs, num-bigint); decoder panics are counted and left to C09",
@@ -29,6 +37,10 @@ CHECKS = {
    "every receiver entry point named by the property runs as a simulated node under catch_unwind while the transport corrupts EVERY delivery (10 byte-level kinds), enumerates boundary values of every length/threshold field and short prefixes, and substitutes structurally valid degenerate values (shares without y, x=0, thresholds 0 and 2^32-1, undecodable group elements in each position of a public key / evaluation / request, missing proof, non-base64 and empty lines); corrupted-but-accepted values flow on into recovery and verification. Oracle: no unwind. Built with overflow-checks so arithmetic overflow counts.",
    "aborts cannot be caught in-process: the wrapper treats an abnormal exit as a violation; Client::unblind and Point::from(&[u8]) are outside the property's list",
    "deterministic simulation with fault injection; crash oracle (catch_unwind per receiver callback); fault enumeration per delivery"),
+ "C16": ("exploration", "DESIGN.md §4 C16",
+   "seeded search over adss sharings (t 0..128, |M|,|R| 0..100000 with block-boundary lengths, optional custom transcripts) dealt by independent dealer nodes - different entropy streams, and two dealers handed the SAME stream through the getrandom seam - whose shares cross the wire under drop/dup/reorder to one combiner where shares of a second transcript also arrive; history oracle: threshold/C/D/J identical across dealers, same entropy => identical share, different entropy => distinct points, t shares recover M, the recovered sharing re-shared mixes with original shares, t=0 never recovers, custom-transcript shares rejected, two transcripts never combine (when |M|+|R| >= 16).",
+   "two honest dealers never draw the same point; transcript-mix check needs >= 128 authenticated bits",
+   "deterministic simulation with controlled per-dealer entropy (identical vs different streams) and transport faults; determinism table + re-sharing oracle"),
 }
 NA = {
  "C07": "pure function of two operands: no party, message, state, fault, schedule or entropy for a simulator to own (DESIGN.md §4 C07); operand generation against big integers would be property-based testing, not this technique",
